@@ -174,9 +174,16 @@ fn compare_final(u: &Final, i: &Final) -> Option<(String, String)> {
     for k in 0..8 { if u.regs_init[k] != i.regs_init[k] { return Some(("register-initialization".into(), format!("R{k} is {} after the interrupted run, {} after the uninterrupted one", if i.regs_init[k] { "initialized" } else { "uninitialized" }, if u.regs_init[k] { "initialized" } else { "uninitialized" }))); } }
     if u.psr != i.psr { return Some((if u.psr & 7 != i.psr & 7 { "condition-codes".into() } else { "psr".into() }, format!("PSR x{:04X}, uninterrupted x{:04X}", i.psr, u.psr))); }
     if u.ssp != i.ssp { return Some(("saved-sp".into(), format!("saved SP x{:04X}, uninterrupted x{:04X}", i.ssp, u.ssp))); }
-    if u.display != i.display { return Some(("output".into(), format!("display {:?}, uninterrupted {:?}", String::from_utf8_lossy(&i.display), String::from_utf8_lossy(&u.display)))); }
+    let i_display: Vec<u8> = i.display.iter().copied().filter(|b| *b != b'~').collect();
+    if u.display != i_display { return Some(("output".into(), format!("display {:?}, uninterrupted {:?}", String::from_utf8_lossy(&i.display), String::from_utf8_lossy(&u.display)))); }
     if let Some(k) = (0..u.user_mem.len()).find(|k| u.user_mem[*k] != i.user_mem[*k]) { return Some(("user-memory".into(), format!("mem[x{:04X}] = x{:04X}, uninterrupted x{:04X}", 0x3000 + k, i.user_mem[k], u.user_mem[k]))); }
     None
+}
+
+/// A service routine that prints '~' (OUT) or "~~" (PUTS) with R0 and R7 saved around the trap.
+fn printing_isr(rng: &mut Rng, origin: u16) -> String {
+    let body = if rng.bool() { "LD R0, ISRCH\nOUT\n" } else { "LEA R0, ISRMSG\nPUTS\n" };
+    format!(".orig x{origin:04X}\nADD R6, R6, #-1\nSTR R0, R6, #0\nADD R6, R6, #-1\nSTR R7, R6, #0\n{body}LDR R7, R6, #0\nADD R6, R6, #1\nLDR R0, R6, #0\nADD R6, R6, #1\nRTI\nISRCH .fill x7E\nISRMSG .stringz \"~~\"\n.end\n")
 }
 
 fn make_setup(rng: &mut Rng, small: bool, kbd_isr: bool) -> Setup {
@@ -193,7 +200,10 @@ fn make_setup(rng: &mut Rng, small: bool, kbd_isr: bool) -> Setup {
         let v = loop { let v = 3 + rng.below(253) as u8; if !used.contains(&v) && v != 0x80 { break v; } };
         used.push(v);
         // some vectors keep the OS default handler (prints a message and RTIs): not transparent for the display, so only installed ones are used
-        isrs.insert(v, gen_isr(rng, 0x1000 + 0x80 * i as u16, false));
+        // a third of the routines print a marker through the OS's own output traps (the interrupted program may itself be inside
+        // PUTS / OUT / PUTSP at that moment); the marker '~' never occurs in program output and is filtered out before comparing
+        let isr = if rng.chance(1, 3) { printing_isr(rng, 0x1000 + 0x80 * i as u16) } else { gen_isr(rng, 0x1000 + 0x80 * i as u16, false) };
+        isrs.insert(v, isr);
     }
     if kbd_isr { isrs.insert(0x80, gen_isr(rng, 0x1800, true)); }
     Setup { ign: rng.chance(1, 4), over, no_stack, prog, isrs, real: rng.bool(), prio0: 0, kbd: vec![], kbd_ie: false, timer: None }
@@ -214,6 +224,7 @@ fn run_and_compare(ctx: &mut Ctx, su: &Setup, base: &Final, reqs: &[Req], class:
     if let Some((sig, what)) = compare_final(base, &fin) { ctx.violation(&format!("not-transparent:{sig}:{class}"), format!("{what} (taken {} interrupts at {:?})", mon.taken, mon.entries), case_json(su, reqs)); return None; }
     ctx.count_n("interrupts.taken", mon.taken); ctx.count_n("interrupts.gated-or-dropped", mon.gated); ctx.count_n("interrupts.arbitrated", mon.lost_arbitration);
     if mon.max_nest >= 2 { ctx.count("runs.nested"); }
+    if mon.taken > 0 && fin.display.contains(&b'~') { ctx.count("runs.with-printing-service-routine"); }
     if mon.taken > 0 { ctx.count(&format!("runs.with-interrupts.{class}")); if su.ign { ctx.count("runs.with-interrupts.ignore-privilege"); } }
     for (b, _, _) in &mon.entries { let pc = mon.trace_pcs[*b as usize]; ctx.count(if pc < 0x3000 { "entries.while-in-os-code" } else { "entries.while-in-user-code" }); }
     Some(mon)
@@ -305,7 +316,7 @@ fn run(ctx: &mut Ctx) {
 fn guard(m: &Merged, _t: Tier) -> Vec<String> {
     let mut out = vec![];
     for k in ["exhaustive.programs", "interrupts.taken", "interrupts.gated-or-dropped", "interrupts.arbitrated", "runs.nested", "runs.with-interrupts.single", "runs.with-interrupts.pair", "runs.with-interrupts.random",
-              "runs.with-interrupts.keyboard", "runs.with-interrupts.timer", "entries.while-in-os-code", "entries.while-in-user-code", "runs.with-interrupts.ignore-privilege"] { need(m, &mut out, k, 5); }
+              "runs.with-interrupts.keyboard", "runs.with-interrupts.timer", "entries.while-in-os-code", "entries.while-in-user-code", "runs.with-interrupts.ignore-privilege", "runs.with-printing-service-routine"] { need(m, &mut out, k, 5); }
     let sb = m.c("inconclusive.step-bound"); if sb * 10 > m.evaluations { out.push(format!("{sb} of {} runs hit the step bound", m.evaluations)); }
     out
 }
